@@ -17,3 +17,33 @@ void h_max_loop_shift(void) {
   orc_x86_compiler_max_loop_shift(t, c);
   REACH();
 }
+
+/* ---- C10: the registers the ABI makes the callee preserve are in save_regs, the stack pointer is never handed out --- */
+static int st_is64 (int flags) { return nondet_int (); }
+static int st_fp (int flags) { return nondet_int (); }
+static int st_lj (int flags) { return nondet_int (); }
+static void st_regs (int *regs, int is_64bit) { }   /* the backends' validate/saveable callbacks only touch vector registers */
+
+/* The contract of orc_x86_compiler_init, written as assume(requires) / assert(ensures) around the real function:
+ * dfcc's write-set instrumentation of the ~300 register-table writes runs out of memory (DESIGN.md 7.8), the plain
+ * form is decided in seconds.  No frame condition is claimed. */
+#define INIT_REQUIRES(c, t) \
+  ((c)->n_insns == 0 && (c)->max_var_size >= 1 && (c)->max_var_size <= 64 && (t)->register_size >= 1 && (t)->register_size <= 64)
+void h_compiler_init(void) {
+  OrcCompiler *c = malloc(sizeof(*c)); OrcTarget *tg = malloc(sizeof(*tg)); OrcX86Target *t = malloc(sizeof(*t));
+  __CPROVER_assume(c != NULL && tg != NULL && t != NULL);
+  t->is_64bit = st_is64; t->use_frame_pointer = st_fp; t->use_long_jumps = st_lj; t->validate_registers = st_regs; t->saveable_registers = st_regs;
+  tg->target_data = t; c->target = tg;
+  __CPROVER_assume(INIT_REQUIRES(c, t));
+  orc_x86_compiler_init(c);
+  /* System V AMD64: rbx, rbp, r12-r15 */
+  __CPROVER_assert(!c->is_64bit || (c->save_regs[X86_EBX] == 1 && c->save_regs[X86_EBP] == 1 && c->save_regs[X86_R12] == 1 && c->save_regs[X86_R13] == 1 && c->save_regs[X86_R14] == 1 && c->save_regs[X86_R15] == 1), "postcondition: SysV callee-saved registers are in save_regs");
+  /* i386: ebx, edi, ebp (esi is pushed by the prologue whenever it is used) */
+  __CPROVER_assert(c->is_64bit || (c->save_regs[X86_EBX] == 1 && c->save_regs[X86_EDI] == 1 && c->save_regs[X86_EBP] == 1), "postcondition: i386 callee-saved registers are in save_regs");
+  __CPROVER_assert(c->valid_regs[X86_ESP] == 0, "postcondition: the stack pointer is never allocatable");
+  __CPROVER_assert(c->valid_regs[c->exec_reg] == 0 && c->valid_regs[c->gp_tmpreg] == 0, "postcondition: executor and scratch registers are never allocatable");
+  __CPROVER_assert(!c->use_frame_pointer || c->valid_regs[X86_EBP] == 0, "postcondition: the frame pointer is never allocatable");
+  __CPROVER_assert(c->gp_tmpreg == X86_ECX, "postcondition: the scratch register is rcx/ecx (caller-saved)");
+  __CPROVER_assert(c->used_regs[X86_EBX] == 0 && c->used_regs[X86_R12] == 0 && c->used_regs[X86_R15] == 0, "postcondition: no register is marked used before allocation");
+  REACH();
+}
